@@ -367,8 +367,21 @@ def run(ctx):
         rp = f.body(owner + "::read_payload::{closure#0}")
         if rp is None or len(ptys) != 1:
             continue
-        readers = sorted({c.res for c in rp.calls() if c.res in f.fns and f.fns[c.res].get("async") and
-                          ("Result<%s," % ptys[0]) in (f.fns[c.res].get("output") or "")})
+        readers = {c.res for c in rp.calls() if c.res in f.fns and f.fns[c.res].get("async") and
+                   ("Result<%s," % ptys[0]) in (f.fns[c.res].get("output") or "")}
+        # … or found by where its result goes, whatever it is declared to deliver (the raw octets, wrapped into the
+        # payload type by the caller): every async fn of the crate whose awaited result is part of the value stored in
+        # the payload field of the PDU that read_payload builds
+        pnames = [nm for nm, ty in ofields if ty != fx]
+        for bd, bi, si, st in aggregates_of(f, owner):
+            if bd is not rp:
+                continue
+            stored = dict((str(k), v) for k, v in K.sym_of(bd).rvalue(st["rv"])[3]).get(pnames[0])
+            for x in walk(strip_deep(stored)) if stored is not None else ():
+                r = (x[3] or {}).get("res") if x[0] == "call" else None
+                if r in f.fns and f.fns[r].get("async") and f.body(r + "::{closure#0}") is not None:
+                    readers.add(r)
+        readers = sorted(readers)
         if not readers:
             ctx.missing("R-CHK", "%s:payload-reader" % short(owner), "an async fn delivering %s awaited by %s::read_payload" % (ptys[0], owner))
         for r in readers:
@@ -483,7 +496,9 @@ def run(ctx):
         ctx.missing("R-FLOW", "Payload::to_payload", P + "Payload::to_payload")
     else:
         ctx.saw_fn(tb.name)
-        vals = sorted({render(canon_checked(t)) for t in returned_terms(f, tb.name)})
+        # (a step of the construction handed to `map` / `and_then` as a closure is read as that step: through_closures)
+        vals = sorted({render(canon_checked(v)) for t in returned_terms(f, tb.name) for u in through_closures(f, t)
+                       for v in _expand_private_calls(f, u, 0, 48, frozenset([tb.name]))})
         me = re.escape(render(("param", tb.local_name(1) or "_1")))
         rxs = []
         for fam in ("v4", "v6"):
@@ -660,14 +675,24 @@ def _be_of(t):
     return None
 
 
-def header_args(f, t, literal_only=False):
+def header_args(f, t, literal_only=False, _depth=0):
     """(version, pdu, session, length) of a header value: the arguments of `Header::new(..)`, or the fields of a `Header`
-    literal in wire order with the multi-byte ones un-converted from network byte order.  None if `t` is neither."""
+    literal in wire order with the multi-byte ones un-converted from network byte order; a private helper that returns
+    one such value is looked through.  None if `t` is none of these."""
     t = strip_deep(t)
     while t[0] == "mvar":
         t = strip_deep(t[3])
     if t[0] == "call" and t[1] == P + "Header::new" and len(t[2]) == 4 and not literal_only:
         return tuple(strip_deep(x) for x in t[2])
+    if not literal_only and _depth < 3 and _private_callee(f, t) is not None:
+        # a header obtained from a private helper is the header that helper builds (its parameters replaced by the
+        # arguments of this call, helpers called for the arguments — a shared length computation — read the same way);
+        # the public `Header::new` stays the anchor.  One value only: a helper that builds different headers on different
+        # paths is not read.
+        alts = {strip_deep(x) for x in _expand_private_calls(f, t, 0, 8, frozenset())}
+        if len(alts) == 1 and t not in alts:
+            return header_args(f, alts.pop(), _depth=_depth + 1)
+        return None
     rec = f.adts.get(P + "Header")
     if t[0] == "agg" and t[1] == P + "Header" and rec:
         vals = dict((str(k), v) for k, v in t[3])
@@ -1645,6 +1670,61 @@ def _expand_private_calls(f, t, depth, limit, stack):
     return out[:limit]
 
 
+def _closure_returns(f, ct, arg):
+    """Terms the one-parameter closure `ct` = ('closure', def, captures) may return on success, in the vocabulary of its
+    creator: its parameter spelt as `arg`, its captures as the values captured.  None if that cannot be read (no body,
+    a capture that is not a plain field of the environment, a local of the closure left unresolved)."""
+    cb = f.body(ct[1])
+    if cb is None or cb.arg_count != 2 or cb.is_coroutine:
+        return None
+    sy = K.sym_of(cb)
+    elem = strip_deep(sy.local(2))
+    caps = {}
+    for name, pl in cb.rec.get("upvars", []):
+        idx = next((pe[1] for pe in pl.get("p", []) if pe and pe[0] == "f"), None)
+        try:
+            caps[name] = ct[2][int(idx)]
+        except (TypeError, ValueError, IndexError):
+            return None
+    out = []
+    for _, _, t in success_values(cb):
+        for alt in _split_vars(strip_deep(t), sy):
+            # (a local of the closure that is not resolved to its parameter / captures has no spelling outside it)
+            if any(x[0] in ("var", "unknown") or (x[0] == "upvar" and x[1] not in caps) for x in walk(alt)):
+                return None
+            out.append(strip_deep(_tmap(alt, lambda x: arg if x == elem else caps.get(x[1]) if x[0] == "upvar" else None)))
+    return out or None
+
+
+def through_closures(f, t, fuel=8, limit=32):
+    """`t` with the closures of `R.map(|x| e)` and `R.and_then(|x| e)` (Option and Result) read: by the contract of the
+    two combinators the closure runs only when R delivered, on what R delivered, so `R.map(|x| e)` is `Ok(e[x := R↓Ok.0])`
+    and `R.and_then(|x| e)` is `e[x := R↓Ok.0]` as far as the delivered value goes (that R must have delivered stays
+    written in the projection, which canon_checked spells like `R?`).  One alternative per value the closure may return;
+    a closure that cannot be read stays as it is."""
+    if fuel <= 0:
+        return [t]
+    for x in walk(t):
+        if not (x[0] == "call" and len(x[2]) == 2 and (x[3] or {}).get("name") in ("map", "and_then")):
+            continue
+        fn = (x[3] or {}).get("fn") or ""
+        ok_variant, adt = ("Ok", "std::result::Result") if _RES_FN.match(fn) else ("Some", "std::option::Option") if _OPT_FN.match(fn) else (None, None)
+        ct = strip(x[2][1])
+        if ok_variant is None or ct[0] != "closure":
+            continue
+        rets = _closure_returns(f, ct, ("field", ("variant", x[2][0], ok_variant), "0", None))
+        if not rets:
+            continue
+        out = []
+        for r in rets:
+            v = r if x[3]["name"] == "and_then" else ("agg", adt, ok_variant, (("0", r),))
+            out += through_closures(f, strip_deep(_tmap(t, lambda y, v=v: v if y == x else None)), fuel - 1, limit)
+            if len(out) >= limit:
+                break
+        return out[:limit]
+    return [t]
+
+
 # ---------------------------------------------------------------------------------------------------------------
 # `remaining -= n` in a cursor loop
 
@@ -1714,6 +1794,82 @@ def cursor_sub_cannot_wrap(b, bi):
     return "the subtrahend is the count `read` returned for a slice cut to ..min(%s, _)" % render(a)
 
 
+def _assigned_locals(t):
+    return {z[2] for z in walk(t) if z[0] in ("var", "mvar") and len(z) > 2}
+
+
+def guarded_sub_cannot_wrap(b, bi):
+    """The checked subtraction `A - B` ending block `bi` cannot wrap: the block is entered only over the edge of a test
+    on which `B < A` / `B <= A` / `B == A` holds (whichever way the comparison is written, `while B < A { … A - B … }`),
+    and nothing is assigned between the test and the subtraction.  Returns the reason or None."""
+    from engine import orderlogic as OL
+    t = b.term(bi)
+    if t["t"] != "assert" or t.get("kind") != "Overflow:Sub" or len(t.get("ops", [])) != 2:
+        return None
+    sy = K.sym_of(b)
+    x, y = (strip_deep(sy.operand(o)) for o in t["ops"])
+    preds = [p for p in range(len(b.blocks)) if bi in b.succs(p) and not b.is_cleanup(p)]
+    if len(preds) != 1 or b.term(preds[0])["t"] != "switch" or b.term(preds[0]).get("dty") != "bool":
+        return None
+    p = preds[0]
+    a, truth = OL.atom(sy.operand(b.term(p)["discr"])), True
+    while a[0] == "not":
+        a, truth = a[1], not truth
+    fe, te = switch_bool_edges(b, p)
+    if a[0] != "cmp" or fe == te or bi not in (fe, te):
+        return None
+    op = a[1] if truth == (te == bi) else {"<": ">=", "<=": ">", ">": "<=", ">=": "<", "==": "!=", "!=": "=="}[a[1]]
+    if not ((a[2] == y and a[3] == x and op in ("<", "<=", "==")) or (a[2] == x and a[3] == y and op in (">", ">=", "=="))):
+        return None
+    # the operands of the test are the operands of the subtraction: no local they are read from is assigned (and nothing
+    # is written through a reference) in the testing block or in the subtracting block
+    locs = _assigned_locals(x) | _assigned_locals(y)
+    for blk in (p, bi):
+        for st in b.blocks[blk]["stmts"]:
+            if st["s"] == "assign" and (st["pl"]["l"] in locs or any(pe and pe[0] == "d" for pe in st["pl"]["p"])):
+                return None
+    return "the subtraction is entered only over the edge on which %s <= %s" % (render(y)[:40], render(x)[:40])
+
+
+def cursor_add_cannot_wrap(b, bi):
+    """The checked addition `S + n` ending block `bi` cannot wrap because n is the count returned by `AsyncReadExt::read`
+    into a slice cut to `..min(T - S, _)` (read returns at most the length of the slice it is given — tokio's contract, in
+    the trusted base), `T - S` is the overflow-checked difference (so it is exact and S + n <= T), and S is not assigned
+    between the `min` and the addition.  The counting-up face of cursor_sub_cannot_wrap.  Returns the reason or None."""
+    t = b.term(bi)
+    if t["t"] != "assert" or t.get("kind") != "Overflow:Add" or len(t.get("ops", [])) != 2:
+        return None
+    sy = K.sym_of(b)
+    u, v = (strip_deep(sy.operand(o)) for o in t["ops"])
+    for s, n in ((u, v), (v, u)):
+        if s[0] not in ("var", "mvar") or len(s) < 3:
+            continue
+        rd = _peel_ready_ok(n)
+        if not (rd[0] == "call" and (rd[3] or {}).get("name") == "read" and ((rd[3] or {}).get("trait") or "").endswith("AsyncReadExt") and len(rd[2]) == 2):
+            continue
+        buf = strip_deep(rd[2][1])
+        while buf[0] == "mvar":
+            buf = strip_deep(buf[3])
+        if not (buf[0] == "call" and (buf[3] or {}).get("name") in ("get_unchecked_mut", "index_mut", "get_mut") and len(buf[2]) == 2):
+            continue
+        rng = strip_deep(buf[2][1])
+        if not (rng[0] == "agg" and str(rng[1]).endswith("ops::RangeTo") and rng[3] and str(rng[3][0][0]) == "end"):
+            continue
+        end = strip_deep(rng[3][0][1])
+        if not _is_min_call(end):
+            continue
+        mb = (end[3] or {}).get("bb")
+        for a in end[2]:
+            a = strip_deep(a)
+            if mb is not None and a[0] == "field" and str(a[2]) == "0" and a[1][0] == "bin" and a[1][1] == "SubWithOverflow" and strip_deep(a[1][3]) == s:
+                # S keeps its value from the `min` to the addition
+                between = set(b.reachable(mb, removed_blocks=[bi]))
+                if any(d[0] in between and bi in b.reachable(d[0]) for d in b.defs().get(s[2], [])):
+                    return None
+                return "the addend is the count `read` returned for a slice cut to ..min(_ - %s, _)" % render(s)
+    return None
+
+
 def length_sub_cannot_wrap(f, b, bi):
     """The checked subtraction ending block `bi` is between expressions of the announced PDU length and constants, and
     for every value of the length for which it would go below zero the block cannot be reached (the too-short case has
@@ -1774,6 +1930,18 @@ class _CursorSub:
     def __getattr__(self, name):
         return getattr(self._ctx, name)
 
+    def _asserts_at(self, fn, kind, where):
+        """(body, block) of every assert of that kind at that source position in (the bodies of) function `fn`."""
+        out = []
+        for name, b in self._f.bodies.items():
+            if root_fn(self._f, name) != fn:
+                continue
+            for bi, blk in enumerate(b.blocks):
+                tt = blk["term"]
+                if tt["t"] == "assert" and tt.get("kind") == kind and not blk.get("cleanup") and b.where(bi) == where:
+                    out.append((b, bi))
+        return out
+
     def ob(self, rule, key, ok, what, where=None, detail=None, nontrivial=True):
         if not ok and rule == "R-PANIC" and "|assert:Overflow:Sub|" in key and where:
             fn = key.split("|", 1)[0]
@@ -1802,6 +1970,18 @@ class _CursorSub:
                 if why and all(why):
                     ok = True
                     what = "%s [C07 length rule: %s]" % (what, why[0])
+                else:
+                    # `A - B` entered only over the edge of a test on which B <= A
+                    why = [guarded_sub_cannot_wrap(b, bi) for b, bi in self._asserts_at(fn, "Overflow:Sub", where)]
+                    if why and all(why):
+                        ok = True
+                        what = "%s [C07 guard rule: %s]" % (what, why[0])
+        if not ok and rule == "R-PANIC" and "|assert:Overflow:Add|" in key and where:
+            # `skipped += n` in a cursor loop that counts up
+            why = [cursor_add_cannot_wrap(b, bi) for b, bi in self._asserts_at(key.split("|", 1)[0], "Overflow:Add", where)]
+            if why and all(why):
+                ok = True
+                what = "%s [C07 cursor rule: %s]" % (what, why[0])
         if not ok and rule == "R-PANIC" and where and re.search(r"\|call:index(_mut)?\|", key):
             # `buf[..min(n, buf.len())]` / `buf[a..min(..)]`-free form: a prefix cut at the minimum of something and the
             # buffer's own length is within bounds
